@@ -96,7 +96,8 @@ def bounded_entries():
     # sqrt(lhs.upper) * 2^128 vs P)
     import math
     seen = set(divs)
-    for lh in (2**64, 2**123, 2**125 - 1, 2**128 - 1, 2**130, 2**200, 2**245, 2**250, 2**251):
+    for lh in (2**64, 2**123, 2**125 - 1, 2**128 - 1, 2**130, 2**200, 2**245, 2**250, 2**251,
+               2**126, 2**126 - 1, 2**126 + 1, 2**124, (2**62 + 1)**2, (2**63 - 1)**2):
         for rh in (2**100, 2**123 - 1, 2**123 + 2**122, 2**125 - 1, 2**127, 2**128 - 1, 2**128):
             for rl in (1, max(rh // 2, 1), max(rh - 3, 1)):
                 if divrem_algorithm(lh, rl, rh) is None or ((0, lh), (rl, rh)) in seen:
@@ -310,6 +311,106 @@ def hash_entries():
     return E
 
 
+SPEC_HEADER = """#[derive(Copy, Drop)]
+struct P3 { a: felt252, b: felt252, c: felt252 }
+#[derive(Copy, Drop)]
+struct Q4 { a: u32, b: u32, c: u32, d: u32 }
+"""
+
+
+def _chain(var, n, salt):
+    """A long arithmetic chain (keeps a callee above the inlining threshold)."""
+    e = var
+    for k in range(n):
+        e = f"(({e}) * {3 + (k + salt) % 5} + {11 + k * salt % 7})"
+    return e
+
+
+def _chain_val(x, n, salt):
+    for k in range(n):
+        x = (x * (3 + (k + salt) % 5) + (11 + k * salt % 7)) % P
+    return x
+
+
+def specialization_entries():
+    """Call patterns that make const folding specialize (and re-specialize) non-inlined callees
+    on aggregates with constant and unknown members."""
+    E = []
+    items = (
+        "fn weigh(p: P3) -> felt252 { let base = 1000 * p.a + 10 * p.b + p.c; "
+        "if p.a != 5 { base + " + _chain("p.b", 40, 1) + " + " + _chain("p.c", 40, 2) + " } else { "
+        "base + " + _chain("p.b - p.c", 12, 3) + " } }\n"
+        "fn middle(b: felt252, c: felt252) -> felt252 { weigh(P3 { a: 5, b, c }) }\n"
+        "fn weigh4(q: Q4) -> u32 { if q.a != 2 { " + _chain("q.b", 30, 1).replace("* ", "% 9 * ") +
+        " } else { (q.b % 100) * 10000 + (q.c % 100) * 100 + (q.d % 100) + " +
+        _chain("(q.b % 7)", 6, 2) + " } }\n"
+        "fn middle4(b: u32, c: u32, d: u32) -> u32 { weigh4(Q4 { a: 2, b, c, d }) }\n"
+    )
+
+    def w(a, b, c):
+        base = 1000 * a + 10 * b + c
+        return (base + _chain_val((b - c) % P, 12, 3)) % P
+    E.append(BEntry("spec_respec_1", [("x", "felt252")], "felt252", "middle(x, 7)",
+                    lambda x: [(True, ok(vint(w(5, i_(x), 7))))], tags=("spec",), items=items))
+    E.append(BEntry("spec_respec_2", [("x", "felt252")], "felt252", "middle(3, x)",
+                    lambda x: [(True, ok(vint(w(5, 3, i_(x)))))], tags=("spec",)))
+    E.append(BEntry("spec_respec_3", [("x", "felt252"), ("y", "felt252")], "felt252",
+                    "middle(x, y) + middle(y, 9)",
+                    lambda x, y: [(True, ok(vint((w(5, i_(x), i_(y)) + w(5, i_(y), 9)) % P)))],
+                    tags=("spec",)))
+    E.append(BEntry("spec_respec_4", [("x", "u32")], "u32", "middle4(x, 7, 9)", None,
+                    tags=("spec",)))
+    E.append(BEntry("spec_respec_5", [("x", "u32"), ("y", "u32")], "u32", "middle4(4, x, y)", None,
+                    tags=("spec",)))
+    return E
+
+
+def fold_entries():
+    """Algebraic-identity patterns const folding rewrites: a constant operand (0, 1, -1, MIN,
+    MAX) on either side of every binary operator, for every integer type, with the other operand
+    unknown at compile time. Specifications come from the reference semantics in gen.py."""
+    import gen
+    from matrix import rng
+    E = []
+    for t in gen.INTS + ["i64", "i128", "felt252"]:
+        if t == "felt252":
+            consts, ops = [0, 1, -1], ["+", "-", "*"]
+        else:
+            lo, hi = rng(t)
+            consts = [0, 1, hi, lo] + ([-1] if lo < 0 else [])
+            ops = ["+", "-", "*", "/", "%"]
+        for op in ops:
+            for c in dict.fromkeys(consts):
+                for pos in ("l", "r"):
+                    lit = ("lit", t, c, t)
+                    var = ("var", "x", t)
+                    ast = ("bin", op, lit, var, t) if pos == "l" else ("bin", op, var, lit, t)
+                    g = gen.Gen(0)
+                    body = g.src(ast)
+                    nm = f"fold_{t}_{ {'+': 'add', '-': 'sub', '*': 'mul', '/': 'div', '%': 'rem'}[op]}" \
+                         f"_{'m' + str(-c) if c < 0 else c}_{pos}"
+                    f = gen.Fn(nm, [("x", t)], t, ast, "")
+
+                    def spec(x, f=f):
+                        return gen.Ref([]).run(f, [x])
+                    E.append(BEntry(nm, [("x", t)], t, body, spec, tags=("fold",)))
+        # comparisons with a constant and a run-time operand
+        if t != "felt252":
+            lo, hi = rng(t)
+            for op in ("==", "<", "<=", ">", ">="):
+                for c in dict.fromkeys((0, hi, lo)):
+                    ast = ("cmp", op, ("var", "x", t), ("lit", t, c, t), "bool")
+                    g = gen.Gen(0)
+                    nm = f"fold_{t}_cmp_{ {'==': 'eq', '<': 'lt', '<=': 'le', '>': 'gt', '>=': 'ge'}[op]}" \
+                         f"_{'m' + str(-c) if c < 0 else c}"
+                    f = gen.Fn(nm, [("x", t)], "bool", ast, "")
+
+                    def spec(x, f=f):
+                        return gen.Ref([]).run(f, [x])
+                    E.append(BEntry(nm, [("x", t)], "bool", g.src(ast), spec, tags=("fold",)))
+    return E
+
+
 def gen_entries():
     """C01/C05: seeded generated programs with reference semantics (gen.py)."""
     import os
@@ -326,7 +427,8 @@ def gen_entries():
 
 EXTRA_FAMILIES = {
     "bounded": bounded_entries, "plumb": plumbing_entries, "gas": gas_entries,
-    "hash": hash_entries, "gen": gen_entries,
+    "hash": hash_entries, "gen": gen_entries, "spec": specialization_entries,
+    "fold": fold_entries,
 }
 import gen as _gen
-EXTRA_HEADERS = {"gen": _gen.PRELUDE, "bounded": BI_HEADER, "plumb": PLUMB_HEADER, "gas": GAS_HEADER, "hash": HASH_HEADER}
+EXTRA_HEADERS = {"spec": SPEC_HEADER, "gen": _gen.PRELUDE, "bounded": BI_HEADER, "plumb": PLUMB_HEADER, "gas": GAS_HEADER, "hash": HASH_HEADER}
